@@ -284,7 +284,7 @@ def boundary_slots():
 BOUNDARY = boundary_slots()
 # properties whose value is unconstrained free text, where the empty string is a legal value
 FREE_TEXT = {"name", "description", "content", "abstract", "explanation", "objective", "contact_information", "subject", "body",
-             "result_name", "display_name", "cwd", "command_line", "comment", "tool_version", "street_address", "city"}
+             "result_name", "display_name", "cwd", "command_line", "comment", "tool_version", "street_address", "city", "statement"}
 
 
 def wl_boundary(ctx, rng, i):
@@ -328,6 +328,51 @@ def wl_boundary(ctx, rng, i):
                 ctx.count("selector_on_falsy_value")
 
 
+def wl_nested_boundary(ctx, rng, i):
+    """false / 0 / '' / range ends in the scalar slots of embedded objects, extensions, marking definitions, bundle members and
+    observed-data elements (the top-level slots are wl_boundary's)."""
+    import copy
+    from ..gen import corrupt
+    ver, t = TYPES[i % len(TYPES)]
+    g = ObjGen(rng, ver, hostile=False, ts_max_digits=6)
+    o = g.make(t, "max" if (i // len(TYPES)) % 2 == 0 else "random", granular=False)
+    if t != "bundle" and rng.random() < 0.3:
+        o = g.bundle(members=[o])
+    if validator.validate(o, ver):
+        ctx.skip("generator error")
+        return
+    try:
+        sl, _ = corrupt.slots(ver, o)
+    except Exception:
+        return
+    n = 0
+    for s_ in sl:
+        if s_.section in ("top", "element") or n >= 25:
+            continue
+        k = s_.kind["k"]
+        name = s_.path[-1]
+        if k == "int":
+            vals = [s_.kind.get("min", 0), s_.kind.get("max", 2 ** 53 - 1), 0]
+        elif k == "float":
+            vals = [s_.kind.get("min", 0.0), 0.0]
+        elif k == "bool":
+            vals = [False, True]
+        elif k == "string" and name in FREE_TEXT:
+            vals = ["", "0"]
+        else:
+            continue
+        for v in vals:
+            oo = copy.deepcopy(o)
+            corrupt.setp(oo, s_.path, v)
+            if validator.validate(oo, ver):
+                continue
+            judge(ctx, oo, ver, embedding="nested-boundary:" + s_.section.split(":")[0], tags=("nested-boundary-value",))
+            ctx.count("nested_boundary_values")
+            if v in (False, 0, "", 0.0):
+                ctx.count("nested_falsy_values")
+            n += 1
+
+
 def sco20_slots():
     m = M.model("2.0")
     out = []
@@ -363,6 +408,7 @@ WORKLOADS = [
     Workload("profiles", wl_profiles, quick=lambda: len(TYPES) * 32, thorough=lambda: len(TYPES) * 6000),
     Workload("pairs", wl_pairs, quick=lambda: len(PAIRS), thorough=lambda: len(PAIRS) * 40),
     Workload("vocab", wl_vocab, quick=lambda: len(VOCAB), thorough=lambda: len(VOCAB), exhaustive=True),
+    Workload("nested-boundary", wl_nested_boundary, quick=lambda: len(TYPES), thorough=lambda: len(TYPES) * 30),
     Workload("boundary", wl_boundary, quick=lambda: len(BOUNDARY), thorough=lambda: len(BOUNDARY), exhaustive=True),
 ]
 
